@@ -87,6 +87,9 @@ class Monitors(Listener):
         self.tier_moves = 0
         self.live_h2c = set()             # pids of hot->cold moves in flight
         self.h2c_inflight = {}            # pid -> [observation being moved hot->cold, amount that has arrived]
+        self.c2h_inflight = {}            # pid -> [observation being moved cold->hot, amount that has arrived]
+        self.live_c2h = set()
+        self.moves_overlapped = None      # see note_moves
         self.max_live_h2c = 0
         self.max_hot_used = Fraction(0)
         self.kinds = {}
@@ -179,6 +182,20 @@ class Monitors(Listener):
             if k == "hot2cold":
                 self.live_h2c.add(pid)
                 self.max_live_h2c = max(self.max_live_h2c, len(self.live_h2c))
+            else:
+                self.live_c2h.add(pid)
+            self.note_moves()
+
+    def note_moves(self):
+        """K7 predicate: since the tiers were last quiet (no move alive) more than one hot->cold move, or moves in both
+        directions, have been alive at once - the cold tier's single transfer slot then no longer shows what is in
+        transit (Lean: TransitOneCold is the hypothesis of C08_admission_cold_room_traj)."""
+        if not self.live_h2c and not self.live_c2h:
+            self.moves_overlapped = None
+        elif len(self.live_h2c) >= 2:
+            self.moves_overlapped = "concurrent-h2c"
+        elif self.live_h2c and self.live_c2h and self.moves_overlapped is None:
+            self.moves_overlapped = "moves-in-both-directions"
 
     # ---------------------------------------------------------------- blocks
     def on_begin(self, pid, info):
@@ -219,6 +236,7 @@ class Monitors(Listener):
             b = sim.buffer
             info["_sum"] = b.hot[0].current_capacity + b.cold[0].current_capacity
             info["_cold_pre"] = b.cold[0].current_capacity
+            info["_hot_pre"] = b.hot[0].current_capacity
 
     def on_end(self, pid, info, outcome):
         k = info["kind"]
@@ -256,6 +274,19 @@ class Monitors(Listener):
         if k == "hot2cold" and outcome[0] in ("end", "raise"):
             self.live_h2c.discard(pid)
             self.h2c_inflight.pop(pid, None)
+            self.note_moves()
+        if k == "cold2hot":
+            # what is on its way back to the hot tier
+            hot0, cold0 = sim.buffer.hot[0], sim.buffer.cold[0]
+            if info["blocks"] == 1 and outcome[0] == "yield" and cold0.observations["transfer"] is not None \
+                    and pid not in self.c2h_inflight:
+                self.c2h_inflight[pid] = [cold0.observations["transfer"], 0]
+            if pid in self.c2h_inflight:
+                self.c2h_inflight[pid][1] += info.get("_hot_pre", hot0.current_capacity) - hot0.current_capacity
+            if outcome[0] in ("end", "raise"):
+                self.live_c2h.discard(pid)
+                self.c2h_inflight.pop(pid, None)
+                self.note_moves()
         if k in ("hot2cold", "cold2hot") and outcome[0] != "raise":
             b = sim.buffer
             s2 = b.hot[0].current_capacity + b.cold[0].current_capacity
@@ -308,7 +339,14 @@ class Monitors(Listener):
         coming = sum(max(0, ob.total_data_size - moved) for ob, moved in self.h2c_inflight.values())
         if coming and vol <= cold.current_capacity < vol + coming:
             snap["still_to_arrive_in_cold"] = fr(coming)
-            self.viol("C08", "admitted-without-cold-space", "%s %s (room taken by data still in transit to the cold tier)" % (o.name, snap))
+            self.viol("C08", "admitted-without-cold-space", "%s %s (room taken by data still in transit to the cold tier)" % (o.name, snap),
+                      sig="admitted-without-cold-space:in-transit" + (":" + self.moves_overlapped if self.moves_overlapped else ""))
+        # K8: the hot tier's test is `free - volume >= 0`; what is on its way back from the cold tier is not counted
+        back = sum(max(0, ob.total_data_size - moved) for ob, moved in self.c2h_inflight.values())
+        if back and vol <= hot.current_capacity < vol + back:
+            snap["still_to_arrive_in_hot"] = fr(back)
+            self.viol("C08", "admitted-without-hot-space", "%s %s (room taken by data still in transit back to the hot tier)" % (o.name, snap),
+                      sig="admitted-without-hot-space:in-transit-from-cold")
         if str(o.status.value) != "WAITING":
             self.viol("C08", "admitted-not-waiting", "%s %s" % (o.name, o.status))
         # running ingests at this moment (feature)
@@ -681,7 +719,7 @@ class Monitors(Listener):
                     self.viol("C15", "delay-not-flagged", "%s %s -> %s" % (tid, dur, total))
         # C01 on the task records: the recorded [ast, aft) intervals of the tasks that ran on one machine
         # never overlap
-        if self.want("C01") and self.simpy_order:      # (release timing inside an instant depends on the order)
+        if (self.want("C01") or self.want("C17")) and self.simpy_order:      # (release timing inside an instant depends on the order)
             per = {}
             for tid, t in tasks.items():
                 if t.aft == -1 or t.ast == -1 or tid not in self.alloc:
@@ -697,6 +735,10 @@ class Monitors(Listener):
                         self.viol("C01", "recorded-intervals-overlap",
                                   "machine %s: %s [%s,%s) and %s [%s,%s)" % (mid_, t1, a1, f1, t2, a2, f2),
                                   sig="recorded-intervals-overlap" + (":at-most-one-step:after-task>=3" if k6 else ""))
+                        if self.h.spec["scheduling"]["kind"] == "dynamic":
+                            # C17: a busy planned machine is waited for - until the finish its occupant records
+                            self.viol("C17", "planned-machine-not-waited-for",
+                                      "machine %s: %s started at %s, %s holds it until %s" % (mid_, t2, a2, t1, f1))
         # C03 precedence -----------------------------------------------------
         for o in tel.observations:
             if o.plan is None or o.plan.graph is None:
